@@ -512,11 +512,14 @@ package lexer
 //@   fresh result
 //@   ensures @allStates result != nil && foralls(s, has(d.rules, s) <==> has(result, s))
 //@   ensures @sameLength foralls(s, has(d.rules, s) ==> len(result[s]) == len(d.rules[s]))
+//@   ensures @sameRules foralls(s, has(d.rules, s) ==> forall(k, 0, len(d.rules[s]), result[s][k] == d.rules[s][k].Rule))
 //@   loop 1 invariant out != nil && fresh(out) && foralls(s, has(out, s) <==> visited(1, s)) && foralls(s, visited(1, s) ==> has(d.rules, s))
 //@   loop 1 invariant foralls(s, visited(1, s) ==> len(out[s]) == len(d.rules[s]))
+//@   loop 1 invariant foralls(s, visited(1, s) ==> forall(k, 0, len(d.rules[s]), out[s][k] == d.rules[s][k].Rule))
 //@   loop 2 invariant -1 <= rangeindex && rangeindex < len(rules) && out != nil && fresh(out)
 //@   loop 2 invariant foralls(s, has(out, s) <==> (visited(1, s) || s == state)) && foralls(s, visited(1, s) ==> has(d.rules, s))
 //@   loop 2 invariant foralls(s, visited(1, s) && s != state ==> len(out[s]) == len(d.rules[s]))
+//@   loop 2 invariant foralls(s, visited(1, s) && s != state ==> forall(k, 0, len(d.rules[s]), out[s][k] == d.rules[s][k].Rule))
 //@   loop 2 invariant len(out[state]) == rangeindex + 1 && forall(k, 0, rangeindex + 1, out[state][k] == rules[k].Rule)
 //@   loop 2 decreases len(rules) - rangeindex
 
